@@ -91,7 +91,7 @@ UTYPE_KINDS = ("rule", "dc")          # operands whose metaclass makes Python ca
 VALUE_POOL = [
     None, True, False,
     {"i": "0"}, {"i": "1"}, {"i": "3"}, {"i": "4"}, {"i": "8"}, {"i": "-3"}, {"i": "10"}, {"i": "50"}, {"i": "101"}, {"s": "50"},
-    {"f": "3.0"}, {"f": "3.5"}, {"f": "-2.5"}, {"f": "nan"},
+    {"f": "3.0"}, {"f": "3.5"}, {"f": "-2.5"}, {"f": "nan"}, {"f": "inf"}, {"f": "1e300"}, {"d": "Infinity"}, {"s": "inf"},
     {"s": "3"}, {"s": "3.0"}, {"s": "3.5"}, {"s": "-2"}, {"s": "8"}, {"s": "abc"}, {"s": "a"}, {"s": "mon"}, {"s": "abcd"},
     {"s": ""}, {"s": "null"}, {"s": "true"}, {"s": "1.25"}, {"s": "2000-01-02"}, {"s": "[1, 2]"}, {"s": "x y"},
     {"b": "3"}, {"b": "abc"}, {"b": "tue"},
@@ -115,6 +115,7 @@ OPTS_POOL = [
     {"collect_errors": True}, {"collect_errors": True, "max_errors": 1}, {"collect_errors": True, "max_errors": 2},
     {"collect_errors": True, "no_explicit_cast": True},
     {"override": True}, {"override": True, "no_data_loss": True}, {"override": True, "collect_errors": True},
+    {"max_depth": 1}, {"max_depth": 2, "collect_errors": True},     # a combinator does not add nesting levels (depth itself: C18)
 ]
 
 
@@ -490,6 +491,9 @@ def impl(case):
         attrs = {"__annotations__": {"f": ann}, "__module__": __name__}
         if _kw(case["opts"]):
             attrs["__options__"] = Options(**_kw(case["opts"]))
+        if root is typing.Any:
+            via = None              # (the class parser turns a bare `Any` annotation into `Rule`: nothing of C09 in it)
+    if via:
         try:
             holder = type("Holder", (Schema,), attrs)
             root = holder.__parser__.fields["f"].type
@@ -659,7 +663,7 @@ def _probe(case):
     raws = _mk_leaves(leaves)
     dcs = {d["name"]: raws[i] for i, d in enumerate(leaves) if d["kind"] == "dc"}
     seen = [_seen(leaves[i], r) for i, r in enumerate(raws)]
-    acc, conv, thread, origin = [], [], [], []
+    acc, conv, thread, origin, rej = [], [], [], [], []
     for j, vd in enumerate(case["values"]):
         v = decode_value(vd, dcs)
         key = json.dumps(enc(v), sort_keys=True)
@@ -674,6 +678,8 @@ def _probe(case):
                 outs[i] = r
                 if json.dumps(enc(r), sort_keys=True) != key:
                     conv.append([i, j])
+            else:
+                rej.append([i, j, r["e"]])
         for i, r in outs.items():
             if [i, j] not in conv:
                 continue
@@ -683,7 +689,7 @@ def _probe(case):
                 kind, _ = _call(LT, {}, r)
                 if (kind == "ok") != (b in outs):
                     thread.append([i, b, j])      # leaf i converts value j; leaf b accepts exactly one of (value, converted)
-    return {"acc": acc, "conv": conv, "thread": thread, "origin": origin}
+    return {"acc": acc, "conv": conv, "thread": thread, "origin": origin, "rej": rej}
 
 
 # ------------------------------------------------------------------------------------------------
@@ -883,6 +889,24 @@ def negation_step_violations(case, io) -> list:
     return out
 
 
+def field_form_violations(case, io) -> list:
+    """a combinator means the same whether it is called or annotates a data-class field: through the field it accepts
+    exactly what the type itself accepts on that input, with the same value"""
+    if not case.get("via") or "node" not in (io.get("root") or {}) or not io.get("variants"):
+        return []
+    var = io["variants"][0]
+    direct = next((o for k, a, b, v, o in io["ntable"] if k == io["root"]["node"] and [a, b] == list(var) and v == 0), None)
+    got = io.get("out")
+    if direct is None or got is None:
+        return []
+    if _is_ok(got) != _is_ok(direct):
+        return [("law", f"field form ({case['via']}): through the field the input is {'accepted' if _is_ok(got) else 'rejected (' + got['err']['e'] + ')'} "
+                        f"but the combinator called directly {'accepts' if _is_ok(direct) else 'rejects'} it")]
+    if _is_ok(got) and got["ok"] != direct["ok"]:
+        return [("law", f"field form ({case['via']}): value {got} differs from the direct call's {direct}")]
+    return []
+
+
 def node_law_violations(case, io) -> list:
     """the combinator laws at every node of the real structure, from its arguments measured in isolation"""
     out = []
@@ -1026,6 +1050,12 @@ class Probe:
         self.acc = {(i, j) for i, j in res["acc"]}
         self.conv = {(i, j) for i, j in res["conv"]}
         self.thread = [tuple(t) for t in res["thread"]]
+        # one or two inputs per ⟨leaf, exception class it rejects with⟩ (ValueError, TypeError, InvalidOperation,
+        # OverflowError, ParseError, …): how a combinator handles a rejection must not depend on its class
+        by = {}
+        for i, j, e in res.get("rej", []):
+            by.setdefault((i, e), []).append(j)
+        self.rej_classes = [(i, e, js) for (i, e), js in sorted(by.items())]
         # ⟨rule leaf, value of exactly its origin type⟩, split by whether the leaf accepts the value
         self.origin_rej = [(i, j) for i, j in res.get("origin", []) if (i, j) not in self.acc]
         self.origin_acc = [(i, j) for i, j in res.get("origin", []) if (i, j) in self.acc]
@@ -1172,6 +1202,25 @@ def origin_type_cases(rng, probe: Probe, n):
     return out
 
 
+def rejection_class_cases(rng, probe: Probe, per_class=1):
+    """every leaf under every combinator on inputs it REJECTS, one (or more) per exception class it rejects with"""
+    out = []
+    for a, exc_name, js in probe.rej_classes:
+        if LEAF_POOL[a]["kind"] in ("any", "rulebase", "none"):
+            continue
+        for j in rng.sample(js, min(per_class, len(js))):
+            leaves, pos = case_leaves([a])
+            leaves = leaves + [{"kind": "none"}, leaf_named("Slug")]
+            A, N, S = {"atom": pos[a]}, {"atom": len(leaves) - 2}, {"atom": len(leaves) - 1}
+            forms = [{"call": "~", "args": [A]}, {"call": "|", "args": [A, N]}, {"call": "^", "args": [A, S]},
+                     {"call": "&", "args": [S, {"call": "~", "args": [A]}]}, {"call": "&", "args": [A, S]}]
+            if LEAF_POOL[a]["kind"] in UTYPE_KINDS:
+                forms.append({"inv": A})
+            for e in forms:
+                out.append({"leaves": leaves, "defs": [e], "opts": dict(rng.choice(OPTS_POOL[:9])), "value": VALUE_POOL[j]})
+    return out
+
+
 def perm_family(rng, probe: Probe):
     """one combinator over 2-4 leaves in EVERY argument order, same input"""
     idx = pick_leaves(rng, rng.choice([2, 3, 3, 4]))
@@ -1314,6 +1363,8 @@ class C09(Check):
             out += kind_matrix()
         if tier == "thorough":
             out += exhaustive_small()
+        if tier != "search":
+            out += rejection_class_cases(rng, pr, 1 if tier == "quick" else 3)
         out += related_cases(rng, pr, {"quick": 60, "thorough": 500, "search": 100}.get(tier, 60))
         out += origin_type_cases(rng, pr, {"quick": 60, "thorough": 400, "search": 100}.get(tier, 60))
         out += threading_cases(rng, pr, {"quick": 12, "thorough": 150, "search": 40}.get(tier, 12))
@@ -1478,6 +1529,7 @@ class C09(Check):
             out += algebra_violations(case, st)
         out += order_violations(case, steps if io.get("structs") else io["struct"])
         out += negation_step_violations(case, io)
+        out += field_form_violations(case, io)
         out += [("law", w) for w in node_law_violations(case, io)]
         return out
 
